@@ -304,13 +304,129 @@ pub fn meta() -> CheckMeta {
         level: "exploration",
         rule: "history = 1-3 sessions in ONE fresh sub-process (the default scheme is process-global), each a real client Session (initial scheme = the built-in default) against a raw scripted server on a write-recording MemPipe; steps: data packets of sizes placed around the schemes' sizes, pushes of one of 4 generated schemes (1-4 per session, incl. re-pushing the initial one), unparsable pushes (no stop, invalid UTF-8, non-numeric / negative stop); variant 'PaddingFactory::default() already used' / 'not used'. Oracle: every packet k after a processed push is accepted by the reference acceptor for line k of the pushed scheme (unpadded at/after its stop); unparsable pushes change nothing and do not end the session. Client level: real Client against a scripted TLS peer that pushes scheme B on the first session; later sessions must announce md5(B). distinct_nontrivial = distinct histories.".into(),
         assumptions: vec!["pushes are processed at quiescent points (1 virtual second after the frame was written)".into()],
-        floors: vec![("packets_checked_after_a_push", 500), ("pushes", 300), ("histories_default_used_before", 20), ("histories_default_not_used_before", 20), ("client_level_sessions", 6), ("client_level_md5_announcements_checked", 4)],
+        floors: vec![("packets_checked_after_a_push", 500), ("pushes", 300), ("histories_default_used_before", 20), ("histories_default_not_used_before", 20), ("client_level_sessions", 6), ("client_level_md5_announcements_checked", 4), ("client_level_pushes_during_a_dial", 2)],
         exhaustive: false,
     }
 }
 
 // ---------------------------------------------------------------------------
 // client level: the real Client against a scripted TLS peer that pushes schemes
+
+
+/// Client level, concurrent: a scheme is pushed on session 1 while the client is in the middle of dialling
+/// session 2 (its TLS handshake is held back by the peer). Both must go on: the push is processed, session 2
+/// comes up, and the session dialled after that announces the pushed scheme.
+async fn push_during_dial(rep: &mut Report, seed: u64, hi: usize) {
+    use crate::netkit;
+    use std::sync::atomic::Ordering;
+    let sch = schemes(seed.wrapping_add(hi as u64 * 104729));
+    let Some(mut peer) = netkit::start_tls_peer().await else {
+        rep.inconclusive("cannot start TLS peer");
+        return;
+    };
+    let client = netkit::make_client(&peer.addr, netkit::PASSWORD, engine::padding_from(&sch[0].text()).expect("scheme"), netkit::quiet_pool());
+    let case = json!({"kind": "c19-client-push-during-dial", "history": hi});
+    rep.case(Some(hash_str(&case.to_string())));
+    let md5_of = |i: usize| format!("{:x}", md5::compute(raw(&sch, i).as_bytes()));
+    // serve one connection up to the destination frame; returns (announced md5, stream id)
+    async fn serve_open(conn: &mut netkit::TlsPeerConn) -> (String, u32) {
+        let mut md5 = String::new();
+        let mut sid = 1;
+        while let Some(f) = conn.recv_non_padding(Duration::from_secs(10)).await {
+            if f.cmd == refcodec::SETTINGS {
+                md5 = refcodec::parse_settings(&f.data).get("padding-md5").cloned().unwrap_or_default();
+            }
+            if f.cmd == refcodec::SYN {
+                sid = f.sid;
+            }
+            if f.cmd == refcodec::PSH {
+                break;
+            }
+        }
+        let _ = conn.send(refcodec::SERVER_SETTINGS, 0, b"v=2").await;
+        (md5, sid)
+    }
+    let mut held = Vec::new();
+    // session 1
+    let c1 = client.clone();
+    let req1 = tokio::spawn(async move { c1.create_proxy_stream(("192.0.2.9".to_string(), 80)).await });
+    let Some(mut conn1) = tokio::time::timeout(Duration::from_secs(10), peer.conns.recv()).await.ok().flatten() else {
+        rep.inconclusive("client did not connect");
+        return;
+    };
+    let (_, sid1) = serve_open(&mut conn1).await;
+    let _ = conn1.send(refcodec::SYNACK, sid1, &[]).await;
+    match tokio::time::timeout(Duration::from_secs(10), req1).await {
+        Ok(Ok(Ok(pair))) => held.push(pair),
+        _ => {
+            rep.inconclusive("request #1 did not complete");
+            return;
+        }
+    }
+    // session 2 is being dialled: TCP connected, TLS handshake held back
+    let accepts_before = peer.tcp_accepts.load(Ordering::SeqCst);
+    peer.hold_handshakes.store(true, Ordering::SeqCst);
+    let c2 = client.clone();
+    let req2 = tokio::spawn(async move { c2.create_proxy_stream(("192.0.2.10".to_string(), 80)).await });
+    let t0 = tokio::time::Instant::now();
+    while peer.tcp_accepts.load(Ordering::SeqCst) == accepts_before && t0.elapsed() < Duration::from_secs(5) {
+        tokio::time::sleep(Duration::from_millis(5)).await;
+    }
+    tokio::time::sleep(Duration::from_millis(40)).await;
+    // the push arrives on session 1 right now
+    let pushed = 1 + hi % 3;
+    let _ = conn1.send(refcodec::UPDATE_PADDING, 0, raw(&sch, pushed).as_bytes()).await;
+    rep.add("client_level_pushes", 1);
+    tokio::time::sleep(Duration::from_millis(80)).await;
+    peer.hold_handshakes.store(false, Ordering::SeqCst);
+    let conn2 = tokio::time::timeout(Duration::from_secs(10), peer.conns.recv()).await.ok().flatten();
+    let mut ok2 = false;
+    if let Some(mut conn2) = conn2 {
+        let (md5_2, sid2) = serve_open(&mut conn2).await;
+        let _ = conn2.send(refcodec::SYNACK, sid2, &[]).await;
+        // dialled while the push was in flight: either scheme may be announced, nothing else
+        if !md5_2.is_empty() && md5_2 != md5_of(0) && md5_2 != md5_of(pushed) {
+            rep.violate("scheme_push", "client_level+push_during_dial", "session_announces_unknown_scheme", format!("session dialled while a push was being processed announces padding-md5 {md5_2:?}, neither the old nor the pushed scheme"), case.clone());
+        }
+        if let Ok(Ok(Ok(pair))) = tokio::time::timeout(Duration::from_secs(10), req2).await {
+            held.push(pair);
+            ok2 = true;
+        }
+        held_conns_keepalive(conn2);
+    }
+    rep.add("client_level_pushes_during_a_dial", 1);
+    if !ok2 {
+        rep.violate("scheme_push", "client_level+push_during_dial", "session_being_dialled_never_came_up", "a scheme was pushed on session 1 while the client was dialling session 2 (TLS handshake in progress): the second request did not complete within 10 s after the handshake was allowed to continue".to_string(), case.clone());
+        client.stop_session_pool_cleanup().await;
+        return;
+    }
+    // session 3, dialled afterwards: must announce the pushed scheme (the push on session 1 was processed)
+    let c3 = client.clone();
+    let req3 = tokio::spawn(async move { c3.create_proxy_stream(("192.0.2.11".to_string(), 80)).await });
+    match tokio::time::timeout(Duration::from_secs(10), peer.conns.recv()).await.ok().flatten() {
+        None => rep.violate("scheme_push", "client_level+push_during_dial", "later_request_never_dialled", "after a push that arrived during a dial, the next request did not reach the server within 10 s".to_string(), case.clone()),
+        Some(mut conn3) => {
+            let (md5_3, sid3) = serve_open(&mut conn3).await;
+            let _ = conn3.send(refcodec::SYNACK, sid3, &[]).await;
+            let _ = tokio::time::timeout(Duration::from_secs(10), req3).await;
+            rep.add("client_level_sessions", 3);
+            if md5_3 != md5_of(pushed) {
+                rep.violate("scheme_push", "client_level+push_during_dial", "later_session_announces_old_scheme", format!("a scheme pushed on session 1 while session 2 was being dialled was never adopted: session 3 announces padding-md5 {md5_3:?}, the pushed scheme has {:?}", md5_of(pushed)), case.clone());
+            } else {
+                rep.add("client_level_md5_announcements_checked", 1);
+            }
+        }
+    }
+    drop(conn1);
+    client.stop_session_pool_cleanup().await;
+}
+
+/// keep a scripted connection open (and drained) in the background
+fn held_conns_keepalive(mut c: crate::netkit::TlsPeerConn) {
+    tokio::spawn(async move {
+        let _ = tokio::time::timeout(Duration::from_secs(30), async { while c.recv().await.is_some() {} }).await;
+    });
+}
 
 pub fn run_client_level(ctx: Ctx) -> Report {
     use crate::netkit;
@@ -396,6 +512,9 @@ pub fn run_client_level(ctx: Ctx) -> Report {
             if hi == 0 {
                 rep.sample(case);
             }
+        }
+        for hi in 0..if quick { 3 } else { 24 } {
+            push_during_dial(&mut rep, seed, hi).await;
         }
         rep
     });
